@@ -412,8 +412,8 @@ def run(ctx):
     for name in sorted(ARCH):
         allc += enumerate_faults(name, ctx.quick, ctx.rng)
     ctx.map(allc)
-    ctx.hyp('strat_mutation', 3000 if ctx.quick else 60000, label=1)
-    ctx.hyp('strat_double', 1500 if ctx.quick else 30000, label=2)
+    ctx.hyp('strat_mutation', 15000 if ctx.quick else 200000, label=1)
+    ctx.hyp('strat_double', 8000 if ctx.quick else 100000, label=2)
     if not ctx.quick:
         from vlib import fuzzrun
         seeds = []
